@@ -60,12 +60,13 @@ type State struct {
 	active  map[string]int // loop header key -> visit count (or 1 = active cut point)
 	vars    map[string]varBinding
 	pathDesc []string
+	ownRoots *lineNode // roots (heapTop terms) of objects allocated by the function under verification on this path
 	epoch   string // id of the last havoc-everything event ("0" = function entry)
 	epochTop string
 }
 
 func (s *State) clone() *State {
-	n := &State{lines: s.lines, heapTop: s.heapTop, epoch: s.epoch, epochTop: s.epochTop}
+	n := &State{lines: s.lines, heapTop: s.heapTop, epoch: s.epoch, epochTop: s.epochTop, ownRoots: s.ownRoots}
 	n.mem = make(map[string]string, len(s.mem))
 	for k, v := range s.mem {
 		n.mem[k] = v
@@ -175,6 +176,7 @@ type Ctx struct {
 	prune     bool
 	usedPures map[string]bool
 	assumedClauses map[string]bool
+	foreignUsed bool
 	skippedAtReturn map[string]int
 }
 
